@@ -35,8 +35,8 @@ def run(ck):
         if e[2]["p"]:
             continue
         if any(r == rr and p[: len(pp)] == pp for r, p in b.resolve(dl.pe.args[0]) for rr, pp in b.resolve(e[2])):
-            miss += [x for _, x in T.discr_edges(b, sw, 0)]
-    bad = T.t2_all_exits(b, [x for _, x in some], [dl.pe.bb] + miss, exits={dl.header})
+            miss += T.discr_edges(b, sw, 0)
+    bad = T.t2_all_exits(b, [x for _, x in some], [dl.pe.bb], exits={dl.header}, removed_edges=miss)
     ck.verdict(bool(some) and bad is None, "1", "T2-all-exits", b, "each-event=>process_events-or-lookup-miss", "every event taken from the batch reaches process_events, or the generation-checked lookup missed, before the next event is taken", "an event can be skipped: a path goes from taking an event to the next iteration without dispatching it and without a lookup miss", site=b.where(dl.header), path=path_descr(b, bad) if bad else None)
 
     # ---- clause 2: expired timers join the batch -------------------------------------------------------
@@ -150,10 +150,10 @@ def run(ck):
                 continue
             if T.copy_chain_locals(b2, blk["term"]["on"]) & set(flags.values()):
                 zero = [tgt for v, tgt in blk["term"]["targets"] if v == 0]
-                exempt += [tgt for tgt, lab in b2.succ_edges(sw) if tgt not in zero]
+                exempt += [(sw, tgt) for tgt, lab in b2.succ_edges(sw) if tgt not in zero]
         starts = [x for _, x in ok_e] or [inner[0].to]
         okret = [i for i, j, st in b2.statements() if st["s"] == "assign" and st["pl"]["l"] == 0 and st["rv"]["r"] == "agg" and st["rv"].get("variant") == "Ok" and not b2.is_cleanup(i)]
-        bad = T.t2_all_exits(b2, starts, [p.bb for p in pings] + exempt, exits=okret)
+        bad = T.t2_all_exits(b2, starts, [p.bb for p in pings], exits=okret, removed_edges=exempt)
         ck.verdict(bool(pings) and bad is None, "4", "T2-all-exits", b2, "not-observed-empty=>self-ping", "every successful return on which neither the 'queue observed empty' nor the 'disconnected' flag is set re-pings the source", "the source can return Ok without re-arming itself although its queue was not observed empty: the remainder of a batch larger than the per-dispatch limit is stranded until the next external wake-up", site=b2.where(inner[0].bb), path=path_descr(b2, bad) if bad else None)
         # in the closure: flags are set only on the Err edge of try_recv
         tr = T.calls(cl, name="try_recv")
